@@ -61,9 +61,11 @@ MUTANTS = [
     F("C04", "both domains share one dict", TP, "        self.on_going_traces = {}\n", "        self.on_going_traces = self.on_going_events\n", "K6"),
     F("C04", "NONE mapped to the START action", TP,
       "            DgbFuncQual.DBG_FUNC_NONE.value: self._feed_single_event,", "            DgbFuncQual.DBG_FUNC_NONE.value: self._feed_start_event,", "K7"),
-    F("C04", "START appended to own window twice (reset after the loop)", TP,
+    # (the former mutant here - append to all, then `own = [event]` - turned out to be behaviour-preserving: the old own window
+    # it appends to is discarded; C04 now says "another form of the machine" (exit 2) for it, see DESIGN 8.10)
+    F("C04", "own window reset after the loop: it no longer begins with its START", TP,
       "        state[event.tid][event.eventid] = []\n        for eventid in state[event.tid]:\n            state[event.tid][eventid].append(event)\n",
-      "        for eventid in state[event.tid]:\n            state[event.tid][eventid].append(event)\n        state[event.tid][event.eventid] = [event]\n", None),
+      "        for eventid in state[event.tid]:\n            state[event.tid][eventid].append(event)\n        state[event.tid][event.eventid] = []\n", None),
     F("C04", "END appended only to its own window", TP,
       "        for eventid in state[event.tid]:\n            state[event.tid][eventid].append(event)\n\n        events = state[event.tid].pop(event.eventid)",
       "        state[event.tid][event.eventid].append(event)\n\n        events = state[event.tid].pop(event.eventid)", "K4"),
